@@ -230,20 +230,25 @@ def _prec(run, P):
 
 def _const(run, P):
     f = P.func(f"{EXPR}.FortranExpressionMapper.map_constant")
-    tests = []
-    node = None
-    for s in f.node.body:
-        if isinstance(s, ast.If):
-            node = s
-    from .util import core
-    while isinstance(node, ast.If):
-        tests.append(ast.unparse(node.test))
-        nxt = core(node.orelse, lambda s_: isinstance(s_, ast.If))
-        node = nxt[0] if len(nxt) == 1 and isinstance(nxt[0], ast.If) else None
-    ok = len(tests) >= 2 and "complex" in tests[0] and "bool" in tests[1]
+    from ..engine.cfg import CFG, walk_fragment
+    from ..engine.srcmodel import _always_leaves
+    g = CFG(f.node)
+    e = f.params[1]
+
+    def type_tests(word):
+        return [n for n in g.nodes if n.kind == "test" and isinstance(n.label, ast.If)
+                and isinstance(n.ast, ast.Call) and dotted(n.ast.func) == "isinstance"
+                and dotted(n.ast.args[0]) == e and word in ast.unparse(n.ast.args[1])
+                and _always_leaves(n.label.body)]
+
+    cplx, boo = type_tests("complex"), type_tests("bool")
+    numeric = [n for n in g.nodes if n.kind == "stmt" and n.ast is not None and any(
+        isinstance(x, ast.Call) and dotted(x.func) == "repr" for x in walk_fragment(n.ast))]
+    ok = bool(cplx) and bool(boo) and bool(numeric) \
+        and not g.always_preceded(numeric, boo) and not g.always_preceded(numeric, cplx)
     run.ob("C03.const", f, f.node, ok,
-           construct=f"branch order: {tests}",
-           why="bool is an int: tested after the numeric branch, True prints as 'Trued0'")
+           construct="complex and bool constants are dealt with (and left) before the numeric formatting",
+           why="bool is an int: reaching the numeric branch, True prints as 'Trued0'")
     src = ast.unparse(f.node)
     ok = "if expr < 0:" in src and "'(%s)' % result" in src
     run.ob("C03.const", f, f.node, ok,
